@@ -96,7 +96,7 @@ CHECKS = {
         note='ro/ro pairs only so far; dro-specific misuses (ambiguity() after constraints, scenario mismatch) are planned. Same bounds as C09.'),
     'C19': dict(
         level='model_checking',
-        technique='Lifecycle.tla histories replayed with byte-level observation of formulas, global RNG state and user arrays',
+        technique='TLC model checking of Lifecycle.tla (CacheCoherent, DualCurrent) + byte-level observation of formulas, global RNG and user arrays along replayed histories; UserData.tla: the table role x dtype x memory layout x writeable x front end, every case replayed (array bytes/flags before and after, read-only arrays, repeated formulation), and the same models formulated in three fresh interpreters with different PYTHONHASHSEED',
         design_ref='DESIGN.md 2.2, 5/C19',
         text=('On every step of every replayed Lifecycle history the harness observes: numpy global RNG state (hash) unchanged; user-supplied '
               'coefficient arrays bytewise unchanged; do_math(primal/dual) twice without change returns numerically identical programs and does '
